@@ -573,11 +573,52 @@ func (c *Context) Sqrt(d, x *Decimal) (Condition, error) {
 		return 0, err
 	}
 
+	// approx is within a tiny fraction of a unit in the last place of sqrt(f),
+	// but rounding it is not the same as rounding sqrt(f): when sqrt(f) lies
+	// just below a rounding midpoint (or a representable value) approx can be
+	// that midpoint (or value) itself. Decide the last digit exactly instead,
+	// as the paper does: truncate approx to c.Precision digits and compare f
+	// with the square of the midpoint above the truncated value. This is done
+	// unless the result is subnormal, which is rounded to fewer digits below.
+	inexact := false
+	exactRounding := c.Precision > 0 &&
+		int64(approx.Exponent)+approx.NumDigits()-1+e/2 >= int64(c.MinExponent)
+	if exactRounding {
+		var v, mid, sq Decimal
+		trunc := BaseContext.WithPrecision(c.Precision)
+		trunc.Rounding = RoundDown
+		trunc.round(&v, &approx)
+		if pad := int64(c.Precision) - v.NumDigits(); pad > 0 {
+			var tmpE BigInt
+			v.Coeff.Mul(&v.Coeff, tableExp10(pad, &tmpE))
+			v.Exponent -= int32(pad)
+		}
+		// mid = v + half a unit in the last place of v.
+		mid.Set(&v)
+		mid.Coeff.Mul(&mid.Coeff, bigTen)
+		mid.Coeff.Add(&mid.Coeff, bigFive)
+		mid.Exponent--
+		exact := MakeErrDecimal(&BaseContext)
+		exact.Mul(&sq, &mid, &mid)
+		if cmp := f.Cmp(&sq); cmp > 0 || (cmp == 0 && v.Coeff.Bit(0) == 1) {
+			v.Coeff.Add(&v.Coeff, bigOne)
+		}
+		exact.Mul(&sq, &v, &v)
+		if err := exact.Err(); err != nil {
+			return 0, err
+		}
+		inexact = sq.Cmp(&f) != 0
+		approx.Set(&v)
+	}
+
 	d.Set(&approx)
 	d.Exponent += int32(e / 2)
 	nc.Precision = c.Precision
 	nc.Rounding = RoundHalfEven
 	res := nc.round(d, d)
+	if inexact {
+		res |= Inexact | Rounded
+	}
 	return nc.goError(res)
 }
 
